@@ -319,3 +319,43 @@ PLAN['C05'] = {
     'assumptions': ['free term algebra for hashes', 'nothing is claimed for encodings the real Verify rejects (the property is conditional on acceptance); the counts of accepted encodings per kind are in the evidence',
                     'encodings through a cached-proof update are covered by C07 (the updated proof equals the canonical one)'],
 }
+
+
+def geom(name, mode, maxr=0, hs=(), seed=1, nrand=0, maxpp=0, invariants=None, **kw):
+    st = {
+        'kind': 'gen_replay', 'name': name, 'module': 'GeometryBits', 'fam': 'geom', 'spec': 'Spec', 'view': 'View',
+        'constants': {'Mode': '"%s"' % mode, 'MaxR': maxr, 'Hs': '{' + ', '.join(str(h) for h in hs) + '}',
+                      'Seed': seed % 100000, 'NRand': nrand, 'MaxPP': maxpp},
+        'invariants': invariants or (['TypeOK', 'InverseLaws', 'AgreesWithForest', 'ConstructiveOK'] if mode == 'exh'
+                                     else ['TypeOK', 'InverseLaws']),
+    }
+    st.update(kw)
+    return st
+
+
+# --------------------------------------------------------------------------- C16
+PLAN['C16'] = {
+    'stages': lambda tier, seed: (
+        [geom('geom_exh', 'exh', maxr=6, maxpp=8),
+         geom('geom_pat', 'pat', hs=(7, 15, 16, 17, 31, 32, 33, 47, 62, 63), seed=seed, nrand=2)] if tier == 'quick' else
+        [geom('geom_exh', 'exh', maxr=8, maxpp=11),
+         geom('geom_pat', 'pat', hs=tuple(range(5, 64)), seed=seed, nrand=4, timeout=10000)]),
+    'rule': 'spec/GeometryBits.tla: a cursor machine over positions written as (row, digit string of the offset) - parent = '
+            'drop the last digit, children = append 0/1, re-allocation = pad/strip leading zeros - plus a leaf count as a '
+            'digit string. Every transition TLC generates is one test of an exported function: Parent, LeftChild, RightChild, '
+            'ParentMany, ChildMany, DetectRow, translatePos (through the verif export), RootPositions, TreeRows, DetectOffset '
+            '(tree index, branch length, and the bit field judged through its documented niece-pointer descent) and '
+            'ProofPositions (exact sequence of proof positions, set of computable ancestors; single targets at every height, '
+            'every antichain of targets of small forests, each asked in 7 allocations up to 63 rows). Mode exh: every height '
+            '0..MaxR, every position, every leaf count; mode pat: heights up to 63 with boundary digit strings (all 0, all 1, '
+            'single digit, alternating) and pseudo-random ones from VERIF_SEED. TLC checks the inverse laws on the '
+            'specification and, for small heights, that the digit-string geometry equals the numeric geometry of '
+            'spec/Forest.tla used by all other properties. Non-trivial: every transition; distinct by (operation, arguments).',
+    'bounds': {'quick': 'exhaustive: heights 0..6, antichains of forests with <=8 leaves; patterns: heights 7,15,16,17,31,32,33,47,62,63',
+               'thorough': 'exhaustive: heights 0..8, antichains of forests with <=11 leaves; patterns: every height 5..63, 4 random strings per length'},
+    'exhaustive': {'quick': False, 'thorough': False},
+    'assumptions': ['TLC integers are 32 bit: heights above the exhaustive bound are covered by boundary and pseudo-random digit '
+                    'strings, not exhaustively',
+                    'ProofPositions is judged on antichains of in-forest targets (the only inputs the library produces)',
+                    'DetectOffset is judged on positions inside the forest'],
+}
